@@ -22,6 +22,8 @@ FIXES = [
     ("C16", "fix: cumulative reduction of an empty list", "cumulative sums of [] raised TypeError when forced (scanl yielded None)"),
     ("C16", "fix: the only permutation of the empty list", "permutations of [] were [''] instead of [[]]"),
     ("C17", "fix: prime factors are listed in ascending order", "prime factors (ǐ) came back unsorted for some n: 17179869183 gave [3, 131071, 43691]"),
+    ("C10", "fix: Ȧ assigns into a copy", "Ȧ stored into its argument in place; every lazy duplicate changed too: ⟨1|2|3⟩ : 0 9 Ȧ left ⟨9|2|3⟩ twice (also via →x←x and £¥)"),
+    ("C10", "fix: Ḟ (generator from function) no longer appends", "Ḟ appended each generated term to the caller's initial list: ⟨1|2|3⟩ : λ+; Ḟ 4Ẏ grew the untouched duplicate"),
     ("C02", "fix: the template of ¨…", "the template of ¨… had a positional argument after a keyword argument: every program containing ¨… failed to compile"),
 ]
 
